@@ -45,6 +45,8 @@ def seed_network(cls, g, nodeless=False):
         H.add_simplex([N(0), N(1)], **A([[2, [1, 5]]], "e"))
         H.add_simplex([N(1)], idx=E(100))
     H["wt"] = [7]
+    H["incoming_data"] = 3       # a network attribute named like a constructor parameter
+    H[("layer", 1)] = 4          # network attribute names are any hashable
     # a value that looks immutable from outside but holds a mutable object
     H.nodes[N(2)]["mult"] = ("created", ["v1"])
     for e in list(H.edges)[:1]:
